@@ -12,6 +12,15 @@ func attachMonitors(w *World) {
 	if w.want["C07"] {
 		monC07(w)
 	}
+	if w.want["C02"] {
+		monC02(w)
+	}
+	if w.want["C03"] {
+		monC03(w)
+	}
+	if w.want["C11"] {
+		monC11(w)
+	}
 	monReach(w)
 }
 
